@@ -1,14 +1,605 @@
-//! (under construction)
+//! C10 — encoding is independent of call history and of the calling thread.
+//!
+//! The simulator owns the *history* and the *identity of the calling thread*:
+//! a seeded sequencer hands one operation at a time to one of 1..3 long-lived
+//! caller threads (exactly one runs at any instant, so the operation list IS the
+//! schedule). Every operation's result is compared with the result of the same
+//! operation executed alone on a freshly spawned thread (the reference model is
+//! "a thread with no history").
+//!
+//! Operations: stream-level encode (through a scripted `SimSource`, including
+//! sources that fail), frame-level encode, write of an existing stream to
+//! `ByteSink` / `MemSink<u64>` (optionally after `precompute_bitstream`),
+//! parse + re-serialise + decode of stored bytes, verify. Inputs an operation
+//! merely consumes (the stream to write, the bytes to parse) are produced on a
+//! throw-away helper thread so that the caller thread performs only the
+//! operation under test.
+
+use crate::corpus::stream_bytes;
+use crate::nomshim;
+use crate::pan;
+use crate::rng::{fnv, mix, Rng};
+use crate::simsource::SimSource;
+use crate::workload::{fresh_small as fresh_workload, neighbour as mutate, Workload};
 use crate::{Summary, Violation};
+use flacenc::bitsink::{ByteSink, MemSink};
+use flacenc::component::{BitRepr, Stream};
+use flacenc::error::Verify;
+use flacenc::source::{Fill, FrameBuf};
+use serde::{Deserialize, Serialize};
+use serde_json::json;
+use std::collections::{BTreeMap, BTreeSet};
+use std::sync::mpsc;
 
-pub fn run(_ctx: &crate::RunCtx) -> (Summary, Vec<Violation>) {
-    (Summary::new("under construction"), vec![])
+#[derive(Serialize, Deserialize, Clone, Debug, PartialEq)]
+#[serde(tag = "op")]
+pub enum Op {
+    /// `encode_with_fixed_block_size` (single-thread) + `Stream::write` to a `ByteSink`
+    EncStream { w: Workload },
+    /// `FrameBuf` fill (`fill` inter-channel samples, as ints or bytes) + `encode_fixed_size_frame` + `Frame::write`
+    EncFrame { w: Workload, frame_number: usize, fill: usize, as_bytes: bool },
+    /// write of a stream made elsewhere; sink 0 = `ByteSink`, 1 = `MemSink<u64>`
+    Write { w: Workload, sink: u8, precompute: bool },
+    /// `parser::stream` on bytes made elsewhere, then re-serialise and decode
+    Parse { w: Workload },
+    /// `Stream::verify` + `count_bits` of a stream made elsewhere
+    Verify { w: Workload },
 }
 
-pub fn exec(_case: &serde_json::Value) -> Result<Option<Violation>, String> {
-    Err("not implemented".into())
+impl Op {
+    pub fn name(&self) -> &'static str {
+        match self {
+            Self::EncStream { .. } => "EncStream",
+            Self::EncFrame { .. } => "EncFrame",
+            Self::Write { .. } => "Write",
+            Self::Parse { .. } => "Parse",
+            Self::Verify { .. } => "Verify",
+        }
+    }
+    pub fn w(&self) -> &Workload {
+        match self {
+            Self::EncStream { w } | Self::EncFrame { w, .. } | Self::Write { w, .. } | Self::Parse { w } | Self::Verify { w } => w,
+        }
+    }
 }
 
-pub fn minimise(case: &serde_json::Value, _class: &str, _site: &str) -> serde_json::Value {
-    case.clone()
+#[derive(Serialize, Deserialize, Clone, Debug, PartialEq)]
+pub struct Step {
+    pub thread: usize,
+    pub op: Op,
+    /// how this step's arguments were derived ("fresh" or the mutation applied to an earlier step's arguments)
+    #[serde(default)]
+    pub derived: String,
+}
+
+#[derive(Serialize, Deserialize, Clone, Debug, PartialEq)]
+pub struct History {
+    pub nthreads: usize,
+    pub steps: Vec<Step>,
+}
+
+#[derive(Clone, Debug, PartialEq, Eq)]
+pub enum OpResult {
+    Bytes(Vec<u8>),
+    Err(String),
+    Panic { site: String, message: String },
+}
+
+impl OpResult {
+    fn digest(&self) -> (u8, u64, usize) {
+        match self {
+            Self::Bytes(b) => (0, fnv_bytes(b), b.len()),
+            Self::Err(e) => (1, fnv(e), e.len()),
+            Self::Panic { site, message } => (2, fnv(&format!("{site}|{}", pan::norm_msg(message))), 0),
+        }
+    }
+    fn short(&self) -> String {
+        match self {
+            Self::Bytes(b) => format!("{} bytes (fnv {:016x})", b.len(), fnv_bytes(b)),
+            Self::Err(e) => format!("Err({e})"),
+            Self::Panic { site, message } => format!("panic at {site}: {}", pan::norm_msg(message)),
+        }
+    }
+}
+
+fn fnv_bytes(b: &[u8]) -> u64 {
+    let mut h = 0xcbf2_9ce4_8422_2325u64;
+    for x in b {
+        h ^= u64::from(*x);
+        h = h.wrapping_mul(0x0000_0100_0000_01B3);
+    }
+    h
+}
+
+/// What an operation consumes; made on a helper thread that is then discarded.
+enum Prepared {
+    Nothing,
+    Stream(Stream),
+    Bytes(Vec<u8>),
+    Failed(String),
+}
+
+fn encode_plain(w: &Workload) -> Result<Stream, String> {
+    let mut w2 = w.clone();
+    w2.faults.clear();
+    let mut src = SimSource::new(&w2);
+    let cfg = w2.cfg.build(false, None, w2.block);
+    flacenc::encode_with_fixed_block_size(&cfg, &mut src, w2.block).map_err(|e| format!("{e}"))
+}
+
+fn prepare(op: &Op) -> Prepared {
+    match op {
+        Op::EncStream { .. } | Op::EncFrame { .. } => Prepared::Nothing,
+        Op::Write { w, .. } | Op::Verify { w } => match encode_plain(w) {
+            Ok(s) => Prepared::Stream(s),
+            Err(e) => Prepared::Failed(e),
+        },
+        Op::Parse { w } => match encode_plain(w) {
+            Ok(s) => Prepared::Bytes(stream_bytes(&s)),
+            Err(e) => Prepared::Failed(e),
+        },
+    }
+}
+
+fn mem64_bytes(s: &MemSink<u64>) -> Vec<u8> {
+    let mut out = vec![0u8; (s.len() + 7) / 8];
+    s.write_to_byte_slice(&mut out);
+    out
+}
+
+fn perform_inner(op: &Op, prep: Prepared) -> OpResult {
+    match (op, prep) {
+        (_, Prepared::Failed(e)) => OpResult::Err(format!("preparation failed: {e}")),
+        (Op::EncStream { w }, _) => {
+            let mut src = SimSource::new(w);
+            let cfg = w.cfg.build(false, None, w.block);
+            match flacenc::encode_with_fixed_block_size(&cfg, &mut src, w.block) {
+                Ok(s) => {
+                    let mut sink = ByteSink::new();
+                    match s.write(&mut sink) {
+                        Ok(()) => OpResult::Bytes(sink.into_inner()),
+                        Err(e) => OpResult::Err(format!("write: {e}")),
+                    }
+                }
+                Err(e) => OpResult::Err(format!("{e}")),
+            }
+        }
+        (Op::EncFrame { w, frame_number, fill, as_bytes }, _) => {
+            let cfg = w.cfg.build(false, None, w.block);
+            let si = match flacenc::component::StreamInfo::new(w.rate, w.channels, w.bits) {
+                Ok(si) => si,
+                Err(e) => return OpResult::Err(format!("{e}")),
+            };
+            let mut fb = match FrameBuf::with_size(w.channels, w.block) {
+                Ok(fb) => fb,
+                Err(e) => return OpResult::Err(format!("{e}")),
+            };
+            let data = w.samples();
+            let n = (*fill).min(w.block).min(data.len() / w.channels);
+            let part = &data[..n * w.channels];
+            let r = if *as_bytes {
+                let mut bb = vec![];
+                crate::simsource::to_le_bytes(part, w.bytes_per_sample(), &mut bb);
+                fb.fill_le_bytes(&bb, w.bytes_per_sample())
+            } else {
+                fb.fill_interleaved(part)
+            };
+            if let Err(e) = r {
+                return OpResult::Err(format!("fill: {e}"));
+            }
+            match flacenc::encode_fixed_size_frame(&cfg, &fb, *frame_number, &si) {
+                Ok(f) => {
+                    let mut sink = ByteSink::new();
+                    match f.write(&mut sink) {
+                        Ok(()) => OpResult::Bytes(sink.into_inner()),
+                        Err(e) => OpResult::Err(format!("write: {e}")),
+                    }
+                }
+                Err(e) => OpResult::Err(format!("{e}")),
+            }
+        }
+        (Op::Write { sink, precompute, .. }, Prepared::Stream(st)) => {
+            let mut st = st;
+            if *precompute {
+                let mut out = Stream::with_stream_info(st.stream_info().clone());
+                for n in 0..st.frame_count() {
+                    let mut f = st.frame(n).unwrap().clone();
+                    f.precompute_bitstream();
+                    out.add_frame(f);
+                }
+                st = out;
+            }
+            if *sink == 0 {
+                let mut s = ByteSink::new();
+                match st.write(&mut s) {
+                    Ok(()) => OpResult::Bytes(s.into_inner()),
+                    Err(e) => OpResult::Err(format!("write: {e}")),
+                }
+            } else {
+                let mut s: MemSink<u64> = MemSink::new();
+                match st.write(&mut s) {
+                    Ok(()) => OpResult::Bytes(mem64_bytes(&s)),
+                    Err(e) => OpResult::Err(format!("write: {e}")),
+                }
+            }
+        }
+        (Op::Parse { .. }, Prepared::Bytes(b)) => match nomshim::parse_stream(&b) {
+            None => OpResult::Err("parser rejected the stream".into()),
+            Some(st) => {
+                let mut out = stream_bytes(&st);
+                for v in crate::c16::decode_stream(&st) {
+                    out.extend_from_slice(&v.to_le_bytes());
+                }
+                OpResult::Bytes(out)
+            }
+        },
+        (Op::Verify { .. }, Prepared::Stream(st)) => {
+            let v = match st.verify() {
+                Ok(()) => "verified".to_owned(),
+                Err(e) => format!("verify error: {e}"),
+            };
+            OpResult::Bytes(format!("{v}; count_bits={}", st.count_bits()).into_bytes())
+        }
+        _ => OpResult::Err("HARNESS: operation and prepared input do not match".into()),
+    }
+}
+
+fn perform(op: &Op, prep: Prepared) -> OpResult {
+    match pan::catch(|| perform_inner(op, prep)) {
+        Ok(r) => r,
+        Err(c) => OpResult::Panic {
+            site: c.site,
+            message: c.message,
+        },
+    }
+}
+
+fn on_fresh_thread<R: Send + 'static>(f: impl FnOnce() -> R + Send + 'static) -> R {
+    std::thread::Builder::new()
+        .stack_size(8 << 20)
+        .spawn(f)
+        .expect("HARNESS: spawn")
+        .join()
+        .expect("HARNESS: helper thread panicked")
+}
+
+fn prepare_elsewhere(op: &Op) -> Prepared {
+    let op = op.clone();
+    on_fresh_thread(move || match pan::catch(|| prepare(&op)) {
+        Ok(p) => p,
+        Err(c) => Prepared::Failed(format!("panic at {}: {}", c.site, c.message)),
+    })
+}
+
+/// The reference: the operation alone on a fresh thread.
+fn reference(op: &Op) -> OpResult {
+    let prep = prepare_elsewhere(op);
+    let op = op.clone();
+    on_fresh_thread(move || perform(&op, prep))
+}
+
+type Job = Box<dyn FnOnce() -> OpResult + Send>;
+
+/// Long-lived caller threads; the sequencer runs exactly one job at a time.
+struct Callers {
+    txs: Vec<mpsc::Sender<Job>>,
+    rx: mpsc::Receiver<OpResult>,
+    handles: Vec<std::thread::JoinHandle<()>>,
+}
+
+impl Callers {
+    fn new(n: usize) -> Self {
+        let (rtx, rx) = mpsc::channel::<OpResult>();
+        let mut txs = vec![];
+        let mut handles = vec![];
+        for _ in 0..n {
+            let (tx, jrx) = mpsc::channel::<Job>();
+            let rtx = rtx.clone();
+            handles.push(
+                std::thread::Builder::new()
+                    .stack_size(8 << 20)
+                    .spawn(move || {
+                        while let Ok(job) = jrx.recv() {
+                            let r = job();
+                            if rtx.send(r).is_err() {
+                                break;
+                            }
+                        }
+                    })
+                    .expect("HARNESS: spawn"),
+            );
+            txs.push(tx);
+        }
+        Self { txs, rx, handles }
+    }
+    fn run(&self, thread: usize, op: &Op) -> OpResult {
+        let prep = prepare_elsewhere(op);
+        let op = op.clone();
+        self.txs[thread % self.txs.len()]
+            .send(Box::new(move || perform(&op, prep)))
+            .expect("HARNESS: caller thread gone");
+        self.rx.recv().expect("HARNESS: caller thread died")
+    }
+    fn finish(self) {
+        drop(self.txs);
+        for h in self.handles {
+            let _ = h.join();
+        }
+    }
+}
+
+#[derive(Default)]
+pub struct RefCache {
+    map: BTreeMap<u64, (u8, u64, usize)>,
+    pub hits: u64,
+    pub misses: u64,
+}
+
+fn op_hash(op: &Op) -> u64 {
+    fnv(&serde_json::to_string(op).unwrap())
+}
+
+fn first_diff(a: &[u8], b: &[u8]) -> String {
+    let n = a.len().min(b.len());
+    let at = (0..n).find(|i| a[*i] != b[*i]).or(if a.len() == b.len() { None } else { Some(n) });
+    format!("len {} vs {}, first differing byte {:?}", a.len(), b.len(), at)
+}
+
+pub struct HistoryStats {
+    pub ops: u64,
+    pub panics: u64,
+    pub errs: u64,
+}
+
+/// Runs a history; returns the first step whose result differs from its fresh-thread reference.
+pub fn run_history(h: &History, cache: &mut RefCache, stats: &mut HistoryStats) -> Option<Violation> {
+    let callers = Callers::new(h.nthreads.max(1));
+    let mut found = None;
+    for (i, st) in h.steps.iter().enumerate() {
+        let got = callers.run(st.thread, &st.op);
+        stats.ops += 1;
+        match &got {
+            OpResult::Panic { .. } => stats.panics += 1,
+            OpResult::Err(_) => stats.errs += 1,
+            OpResult::Bytes(_) => {}
+        }
+        let key = op_hash(&st.op);
+        let want_digest = if let Some(d) = cache.map.get(&key) {
+            cache.hits += 1;
+            *d
+        } else {
+            cache.misses += 1;
+            let d = reference(&st.op).digest();
+            cache.map.insert(key, d);
+            d
+        };
+        if got.digest() != want_digest {
+            // recompute the reference in full for the report (and to rule out a digest collision)
+            let want = reference(&st.op);
+            if want == got {
+                continue;
+            }
+            let detail = match (&got, &want) {
+                (OpResult::Bytes(a), OpResult::Bytes(b)) => first_diff(a, b),
+                (a, b) => format!("{} vs fresh-thread {}", a.short(), b.short()),
+            };
+            let prev: Vec<String> = h.steps[..i]
+                .iter()
+                .enumerate()
+                .map(|(j, s)| format!("#{j} t{} {} ({})", s.thread, s.op.name(), s.derived))
+                .collect();
+            found = Some(Violation {
+                class: "history_dependent_result".into(),
+                site: st.op.name().into(),
+                message: String::new(),
+                detail: format!(
+                    "step #{i} ({} on caller thread {}, arguments {}) gave a result that differs from the same call alone on a fresh thread: {detail}; preceding steps: [{}]",
+                    st.op.name(),
+                    st.thread,
+                    st.derived,
+                    prev.join(", ")
+                ),
+                case: json!({"history": h, "failing_step": i}),
+            });
+            break;
+        }
+    }
+    callers.finish();
+    found
+}
+
+// ---------------------------------------------------------------------------------------------
+// generation
+// ---------------------------------------------------------------------------------------------
+
+fn gen_op(r: &mut Rng, w: Workload) -> Op {
+    match r.below(12) {
+        0..=5 => Op::EncStream { w },
+        6 | 7 => {
+            let fill = match r.below(4) {
+                0 => w.block,
+                1 => 1 + r.below(w.block),
+                2 => w.block - 1,
+                _ => w.block,
+            };
+            let mut w = w;
+            w.nfull = w.nfull.max(1);
+            w.faults.clear();
+            Op::EncFrame {
+                frame_number: *r.pick(&[0usize, 1, 127, 128, 65535, (1usize << 31) - 1]),
+                fill,
+                as_bytes: r.chance(0.4),
+                w,
+            }
+        }
+        8 | 9 => Op::Write {
+            w,
+            sink: r.below(2) as u8,
+            precompute: r.chance(0.4),
+        },
+        10 => Op::Parse { w },
+        _ => Op::Verify { w },
+    }
+}
+
+pub fn gen_history(seed: u64, index: u64, thorough: bool) -> History {
+    let mut r = Rng::new(mix(seed, 0xC10_0000 + index));
+    let nthreads = match r.below(10) {
+        0..=4 => 1,
+        5..=7 => 2,
+        _ => 3,
+    };
+    let nops = 2 + r.below(if thorough { 11 } else { 7 });
+    let mut steps: Vec<Step> = vec![];
+    for i in 0..nops {
+        let (w, derived) = if i > 0 && r.chance(0.8) {
+            let from = r.below(steps.len());
+            let (w, tag) = mutate(steps[from].op.w(), &mut r);
+            (w, format!("{tag} of #{from}"))
+        } else {
+            (fresh_workload(&mut r), "fresh".to_owned())
+        };
+        let mut op = gen_op(&mut r, w);
+        // repeating the very same call (e.g. A, B, A) is the sharpest probe of stale state
+        if i >= 2 && r.chance(0.15) {
+            let from = r.below(steps.len());
+            op = steps[from].op.clone();
+            steps.push(Step {
+                thread: r.below(nthreads),
+                op,
+                derived: format!("repeat of #{from}"),
+            });
+            continue;
+        }
+        steps.push(Step {
+            thread: r.below(nthreads),
+            op,
+            derived,
+        });
+    }
+    History { nthreads, steps }
+}
+
+fn same_bucket_pair(h: &History) -> bool {
+    let alphas: Vec<u32> = h.steps.iter().filter_map(|s| s.op.w().cfg.tukey_alpha_bits).collect();
+    for (i, a) in alphas.iter().enumerate() {
+        for b in &alphas[i + 1..] {
+            let (fa, fb) = (f32::from_bits(*a), f32::from_bits(*b));
+            if a != b && (fa * 65535.0) as u64 == (fb * 65535.0) as u64 {
+                return true;
+            }
+        }
+    }
+    false
+}
+
+pub fn run(ctx: &crate::RunCtx) -> (Summary, Vec<Violation>) {
+    let mut sum = Summary::new(
+        "a case = one history: 2..8 (thorough 2..12) calls issued one at a time by a seeded sequencer to 1..3 long-lived caller threads; \
+         calls are stream-level encodes through a scripted source (also failing ones), frame-level encodes, writes to ByteSink / MemSink<u64> \
+         with or without precomputed frames, parse+re-serialise+decode, verify; 80% of the calls take the arguments of an earlier call with ONE \
+         neighbouring change (block smaller/larger, fewer/more channels, narrower/wider samples, Rice cap 14<->0, fixed order 4<->0, Tukey alpha \
+         +-1..300 ulp, other window, LPC order/precision, a switch, length, signal, order selection, delivery mode, a failing source) or repeat an \
+         earlier call exactly. Every call's result is compared with the same call alone on a fresh thread. distinct = distinct history hashes; \
+         non-trivial = the history contains at least one derived (neighbouring or repeated) call.",
+    );
+    let thorough = ctx.tier == "thorough";
+    let mut viols = vec![];
+    let mut cache = RefCache::default();
+    let mut distinct: BTreeSet<u64> = BTreeSet::new();
+    let mut stats = HistoryStats { ops: 0, panics: 0, errs: 0 };
+    for i in 0..ctx.count {
+        if i % ctx.nchild != ctx.child {
+            continue;
+        }
+        let h = gen_history(ctx.seed, i, thorough);
+        sum.cases += 1;
+        let hh = fnv(&serde_json::to_string(&h).unwrap());
+        let derived = h.steps.iter().any(|s| s.derived != "fresh" && !s.derived.starts_with("same"));
+        if derived && distinct.insert(hh) {
+            sum.distinct_nontrivial += 1;
+        }
+        for s in &h.steps {
+            *sum.ops_hist.entry(s.op.name().into()).or_default() += 1;
+            let tag = s.derived.split(' ').next().unwrap_or("").to_owned();
+            *sum.probes.entry(format!("derived_{tag}")).or_default() += 1;
+            for f in &s.op.w().faults {
+                *sum.fault_kinds.entry(f.kind_name().into()).or_default() += 1;
+            }
+        }
+        *sum.probes.entry(format!("caller_threads_{}", h.nthreads)).or_default() += 1;
+        if same_bucket_pair(&h) {
+            *sum.probes.entry("alpha_pair_in_same_1_65535_bucket".into()).or_default() += 1;
+        }
+        if let Some(v) = run_history(&h, &mut cache, &mut stats) {
+            *sum.classes.entry(v.class.clone()).or_default() += 1;
+            viols.push(v);
+        }
+        if sum.samples.len() < 2 && i >= 2 * ctx.nchild {
+            sum.samples.push(json!({"index": i, "history": h}));
+        }
+    }
+    sum.seam_ops = stats.ops;
+    sum.outcomes.insert("calls_returning_error".into(), stats.errs);
+    sum.outcomes.insert("calls_panicking".into(), stats.panics);
+    sum.outcomes.insert("reference_cache_hits".into(), cache.hits);
+    sum.outcomes.insert("reference_runs".into(), cache.misses);
+    (sum, viols)
+}
+
+fn parse_case(case: &serde_json::Value) -> Result<History, String> {
+    serde_json::from_value(case.get("history").cloned().unwrap_or(serde_json::Value::Null)).map_err(|e| format!("bad C10 case: {e}"))
+}
+
+pub fn exec(case: &serde_json::Value) -> Result<Option<Violation>, String> {
+    let h = parse_case(case)?;
+    let mut cache = RefCache::default();
+    let mut stats = HistoryStats { ops: 0, panics: 0, errs: 0 };
+    Ok(run_history(&h, &mut cache, &mut stats))
+}
+
+/// Shrinks a failing history: keep the failing call last, drop earlier calls one at a time while the
+/// same class/site persists, then try a single caller thread.
+pub fn minimise(case: &serde_json::Value, class: &str, site: &str) -> serde_json::Value {
+    let Ok(mut h) = parse_case(case) else {
+        return case.clone();
+    };
+    let mut cache = RefCache::default();
+    let mut stats = HistoryStats { ops: 0, panics: 0, errs: 0 };
+    let fails = |h: &History, cache: &mut RefCache, stats: &mut HistoryStats| -> Option<usize> {
+        run_history(h, cache, stats)
+            .filter(|v| v.class == class && v.site == site)
+            .and_then(|v| v.case.get("failing_step").and_then(serde_json::Value::as_u64))
+            .map(|x| x as usize)
+    };
+    let Some(f) = fails(&h, &mut cache, &mut stats) else {
+        return case.clone();
+    };
+    h.steps.truncate(f + 1);
+    let mut progress = true;
+    while progress {
+        progress = false;
+        for i in 0..h.steps.len().saturating_sub(1) {
+            let mut t = h.clone();
+            t.steps.remove(i);
+            if fails(&t, &mut cache, &mut stats).is_some() {
+                h = t;
+                if let Some(f2) = fails(&h, &mut cache, &mut stats) {
+                    h.steps.truncate(f2 + 1);
+                }
+                progress = true;
+                break;
+            }
+        }
+    }
+    let mut single = h.clone();
+    single.nthreads = 1;
+    for s in &mut single.steps {
+        s.thread = 0;
+    }
+    if fails(&single, &mut cache, &mut stats).is_some() {
+        h = single;
+    }
+    let f = fails(&h, &mut cache, &mut stats).unwrap_or(h.steps.len().saturating_sub(1));
+    json!({"history": h, "failing_step": f})
 }
